@@ -17,6 +17,7 @@ mod matching;
 mod names;
 mod pack;
 mod reco;
+mod seqrun;
 mod sim;
 mod sym;
 mod util;
@@ -159,6 +160,17 @@ fn main() {
             if let Some(d) = args.get("data") {
                 matching::compose(&mut run, d, args.num("seed", 1), args.num("nsim", 10));
             }
+            run.finish();
+        }
+        "seqrun" => {
+            let mut run = Runner::new(&args);
+            let bindir = std::path::PathBuf::from(args.req("bindir"));
+            let work = std::path::PathBuf::from(args.req("work"));
+            if let Some(p) = args.get("in") {
+                seqrun::replay(&mut run, &bindir.join("alpha-g-sequencer"), &work, p, args.num("seed", 1), args.num("stride", 1) as usize);
+            }
+            seqrun::random(&mut run, &bindir.join("alpha-g-sequencer"), &work, args.num("seed", 1), args.num("n", 100));
+            seqrun::odb(&mut run, &bindir.join("alpha-g-odb"), &work, args.num("seed", 1), args.num("nodb", 40));
             run.finish();
         }
         "names" => {
